@@ -741,6 +741,13 @@ func (r *Replica) Restore(ctx context.Context, opt RestoreOptions) (err error) {
 	pr, pw := io.Pipe()
 
 	go func() {
+		// A truncated or corrupted input can make the ltx decoder panic; a
+		// restore must report that as an error, not take the process down.
+		defer func() {
+			if r := recover(); r != nil {
+				pw.CloseWithError(fmt.Errorf("ltx compactor: invalid input: %v", r))
+			}
+		}()
 		c, err := ltx.NewCompactor(pw, rdrs)
 		if err != nil {
 			pw.CloseWithError(fmt.Errorf("new ltx compactor: %w", err))
